@@ -193,6 +193,7 @@ func main() {
 	variants := flag.Int("variants", 1, "C07: concrete renderings per AST")
 	e2e := flag.Int("e2e", 0, "C07: number of filters sent through the gRPC API")
 	e2eGroup := flag.Int("e2e-group", 12, "C07: subscriptions per topic in the gRPC slice")
+	lawEvery := flag.Int("law-every", 1, "C07: check the laws on every n-th three-leaf AST (1 = all)")
 	kwv := flag.Int("kwvariants", 2, "C08: keyword-content renderings per rejected string (-1 = all)")
 	grpcN := flag.Int("grpc", 0, "C08: number of strings sent through CreateSubscription / UpdateSubscription")
 	fuzzN := flag.Int("fuzz", 0, "C08: number of fuzzed byte strings")
@@ -202,7 +203,7 @@ func main() {
 	var err error
 	switch *mode {
 	case "c07":
-		err = runC07(*in, *out, *seed, *workers, *variants, *e2e, *e2eGroup, *scratch)
+		err = runC07(*in, *out, *seed, *workers, *variants, *e2e, *e2eGroup, *lawEvery, *scratch)
 	case "c08":
 		err = runC08(*in, *out, *seed, *workers, *kwv, *grpcN, *fuzzN, *scratch)
 	case "replay":
